@@ -15,3 +15,4 @@ import MicroHttp.Props.Tables
 #print axioms MicroHttp.C10.history_inv
 #print axioms MicroHttp.C10.reachable
 #print axioms MicroHttp.Tables.is_done_pred
+#print axioms MicroHttp.Tables.client_enqueue
